@@ -563,6 +563,14 @@ fn gen_c12(tier: &str, rng: &mut Rng, emit: &mut dyn FnMut(Op)) {
             emit(Op::new("distinfo.find", &[&doc, l]));
         }
     }
+    // only the FILE NAME decides between patch and distfile: directory components that look like
+    // tarballs, patches or backups decide nothing
+    let doc2: &[u8] = b"SHA1 (patch-aa) = 1\nSHA1 (libfoo-1.2.tar.gz.d/patch-ab) = 2\nSHA1 (patch-dir/c.tgz) = 3\nSHA1 (x.orig/patch-ac) = 4\nSize (c.tgz) = 5 bytes\n";
+    for l in [&b"/w/libfoo-1.2.tar.gz.d/patches/patch-aa"[..], b"libfoo-1.2.tar.gz.d/patch-ab", b"/w/libfoo-1.2.tar.gz.d/patch-ab", b"a.tar.b/patch-aa",
+        b"patch-dir/c.tgz", b"x/patch-dir/c.tgz", b"x.orig/patch-ac", b"emul-x-patch-y/c.tgz", b"patch-local-z/patch-aa", b"q~/patch-aa", b"a.rej/c.tgz"] {
+        emit(Op::new("distinfo.find", &[doc2, l]));
+        emit(Op::new("entrytype", &[l]));
+    }
 }
 
 pub fn gen(id: &str, tier: &str, rng: &mut Rng, emit: &mut dyn FnMut(Op)) {
